@@ -47,9 +47,12 @@ type c15Case struct {
 	Exporters []int      `json:"exporters"` // 127.0.0.<n>; 0 = ::1
 	Workers   int        `json:"workers"`
 	Cycles    []c15Cycle `json:"cycles"`
+	// Disabled: protocols switched off in the configuration (<protocol>-enabled: false) of every instance of the case;
+	// at least one of ipfix / nf9 stays on
+	Disabled []string `json:"disabled,omitempty"`
 }
 
-const c15Rule = "case = 1..3 stop/start cycles of the real collector binary (2..8 workers per protocol, rawSocket sink and restful stats owned by the harness, per-instance pid and cache files) with 1..8 exporters on 127.0.0.x and ::1: " +
+const c15Rule = "case = 1..3 stop/start cycles of the real collector binary (2..8 workers per protocol; in about 3 of 4 cases a generated subset of the four protocols is switched off by configuration, at least one of IPFIX / NetFlow v9 stays on; rawSocket sink and restful stats owned by the harness, per-instance pid and cache files) with 1..8 exporters on 127.0.0.x and ::1: " +
 	"per cycle new IPFIX / NetFlow v9 templates are announced (or all known ones redefined with a shorter definition, so that the next cache file is shorter than the one it replaces) and acknowledged (a data message using them reached the sink), sFlow/NetFlow v5 noise, a data burst, then SIGTERM or SIGINT after a drawn delay, " +
 	"optionally with traffic (data and announcements of fresh template ids) continuing through the shutdown window, or with single late datagrams 0.9..2.1 s after the signal following a quiet period; a final verification restart follows the last cycle; " +
 	"oracle per cycle = exit status 0 within 6 s of the signal, stderr free of panic / fatal error / concurrent map, both cache files exist, load and decode data for every acknowledged (exporter,id) to the reference decode, " +
@@ -70,9 +73,21 @@ func genC15(t *rapid.T) c15Case {
 		}
 	}
 	c.Workers = rapid.IntRange(2, 8).Draw(t, "workers")
+	// which protocols run is a valid configuration choice: a collector for one or two protocols must stop as cleanly
+	c.Disabled = rapid.SampledFrom([][]string{nil, nil, nil, {"ipfix"}, {"nf9"}, {"ipfix", "nf5"}, {"nf9", "sflow"}, {"sflow", "nf5"}, {"ipfix", "sflow", "nf5"}, {"nf9", "sflow", "nf5"}, {"nf5"}}).Draw(t, "disabled")
+	tplProtos := []string{}
+	for _, p := range []string{"ipfix", "nf9"} {
+		off := false
+		for _, d := range c.Disabled {
+			off = off || d == p
+		}
+		if !off {
+			tplProtos = append(tplProtos, p)
+		}
+	}
 	usedID := map[string]bool{}
 	genKey := func() c15Key {
-		proto := rapid.SampledFrom([]string{"ipfix", "nf9"}).Draw(t, "kproto")
+		proto := rapid.SampledFrom(tplProtos).Draw(t, "kproto")
 		exp := rapid.IntRange(0, ne-1).Draw(t, "kexp")
 		id := wire.GenTemplateID(t)
 		for usedID[fmt.Sprint(proto, exp, id)] {
@@ -208,6 +223,25 @@ func runC15(c *c15Case) (v verdict, sig string, err error) {
 	}
 	var acked []*c15Key
 	inflightAtSignal := false
+	disabled := map[string]bool{}
+	for _, d := range c.Disabled {
+		disabled[d] = true
+	}
+	if disabled["ipfix"] && disabled["nf9"] {
+		return v, "", fmt.Errorf("bad case: both template protocols disabled")
+	}
+	for _, cy := range c.Cycles {
+		for _, ks := range [][]c15Key{cy.NewKeys, cy.Fresh, cy.Redefine} {
+			for _, k := range ks {
+				if disabled[k.Proto] {
+					return v, "", fmt.Errorf("bad case: template for a disabled protocol")
+				}
+			}
+		}
+	}
+	v.label(len(disabled) > 0, "some-protocols-disabled")
+	v.label(disabled["ipfix"] && !disabled["nf9"], "nf9-without-ipfix")
+	v.label(disabled["nf9"] && !disabled["ipfix"], "ipfix-without-nf9")
 
 	// cycles, then one verification restart
 	for ci := 0; ci <= len(c.Cycles); ci++ {
@@ -216,7 +250,7 @@ func runC15(c *c15Case) (v verdict, sig string, err error) {
 		if e != nil {
 			return v, "", e
 		}
-		proc, e := startVflow(dir, ports, e2eConfig{Workers: c.Workers, SinkAddr: sink.addr()}, false)
+		proc, e := startVflow(dir, ports, e2eConfig{Workers: c.Workers, SinkAddr: sink.addr(), Disabled: disabled}, false)
 		if e != nil {
 			if proc != nil && stderrProblem(proc.stderrText()) != "" {
 				return v, "start-crash", fmt.Errorf("cycle %d: collector crashed at start-up (cache files of the previous cycle): %s", ci, proc.stderrTail())
@@ -395,6 +429,9 @@ func runC15(c *c15Case) (v verdict, sig string, err error) {
 		}
 		// cache files: complete, loadable, hold every acknowledged template
 		for _, proto := range []string{"ipfix", "nf9"} {
+			if disabled[proto] {
+				continue
+			}
 			file := filepath.Join(dir, map[string]string{"ipfix": "ipfix.templates", "nf9": "netflow9.templates"}[proto])
 			b, e := os.ReadFile(file)
 			if e != nil {
